@@ -33,6 +33,10 @@ func (g *Gen) Tail(n int) {
 			dt = 3700
 		case 2:
 			dt = 13 * 3600
+		case 3:
+			if g.R.Intn(3) == 0 {
+				dt = 3*86400 + g.R.Int63n(1000)
+			}
 		}
 		g.next(dt)
 	}
